@@ -49,6 +49,32 @@ type Run struct {
 	// onlyOracles, when set, restricts which oracles may raise an alarm in this run (the others are counted).
 	onlyOracles map[string]bool
 	otherFailed bool
+	held        []heldOutput
+}
+
+// heldOutput is a byte slice an API returned earlier, with a private copy taken at that moment.
+type heldOutput struct {
+	what string
+	orig []byte
+	cp   []byte
+}
+
+// hold remembers a returned slice; checkHeld verifies later that nothing the library did afterwards changed it.
+func (r *Run) hold(what string, out []byte) {
+	if len(r.held) >= 6 || len(out) == 0 {
+		return
+	}
+	r.held = append(r.held, heldOutput{what, out, append([]byte(nil), out...)})
+}
+
+func (r *Run) checkHeld() {
+	for _, h := range r.held {
+		if string(h.orig) != string(h.cp) {
+			r.violate("W-marshal", "output-changed-later", fmt.Sprintf("the bytes returned by %s changed after later calls: now %s, were %s", h.what, shortBytes(firstDiff(h.orig, h.cp)), shortBytes(firstDiff(h.cp, h.orig))))
+			break
+		}
+	}
+	r.held = r.held[:0]
 }
 
 func newRun(t *testing.T, c *Chooser, prop, tier string) *Run {
